@@ -299,12 +299,23 @@ pub fn slab(rec: &mut Recorder, rng: &mut Rng, thorough: bool) {
                 perform_op(&SymbolOps::Reorder { order: order.clone() }, &mut slab);
                 model = order.iter().map(|p| syms[*p].clone()).collect();
             }
+            let mut ops_txt: Vec<String> = vec![];
+            if model != syms {
+                // the reorder applied above, as an op
+                let order: Vec<usize> = model.iter().map(|m| syms.iter().position(|s| s == m).unwrap()).collect();
+                if { let mut o = order.clone(); o.sort(); o.dedup(); o.len() == count } {
+                    ops_txt.push(format!("r:{}", order.iter().map(|x| x.to_string()).collect::<Vec<_>>().join(".")));
+                }
+            }
+            let had_reorder = model != syms;
             for _ in 0..6 {
                 let dest = rng.below(count as u64) as usize;
                 let mut src = rng.below(count as u64) as usize;
                 if src == dest { src = (dest + 1) % count; }
                 let c = rng.range(2, 255) as u8;
-                match rng.below(3) {
+                let which = rng.below(3);
+                ops_txt.push(match which { 0 => format!("a:{dest}:{src}"), 1 => format!("m:{dest}:{c}"), _ => format!("f:{dest}:{src}:{c}") });
+                match which {
                     0 => { perform_op(&SymbolOps::AddAssign { dest, src }, &mut slab); let s = model[src].clone(); for (a, b) in model[dest].iter_mut().zip(&s) { *a ^= b; } }
                     1 => { perform_op(&SymbolOps::MulAssign { dest, scalar: Octet::new(c) }, &mut slab); for a in model[dest].iter_mut() { *a = pmul(c, *a); } }
                     _ => { perform_op(&SymbolOps::FMA { dest, src, scalar: Octet::new(c) }, &mut slab); let s = model[src].clone(); for (a, b) in model[dest].iter_mut().zip(&s) { *a ^= pmul(c, *b); } }
@@ -315,6 +326,10 @@ pub fn slab(rec: &mut Recorder, rng: &mut Rng, thorough: bool) {
                     }
                 }
                 rec.count("slab_ops");
+            }
+            if !had_reorder || ops_txt.first().map_or(false, |o| o.starts_with("r:")) {
+                let all: Vec<u8> = (0..count).flat_map(|i| slab.get(i).to_vec()).collect();
+                rec.put(&format!("slab {ss} {} {}", hex(&syms.concat()), ops_txt.join(",")), &hex(&all));
             }
         }
     }
